@@ -414,13 +414,22 @@ impl LspServer {
             .connection()
             .unwrap()
             .initialize(server_capabilities)?;
+        #[cfg(datatrash_mos_verif)]
+        crate::verif_dbg::event("life", "\"what\":\"lsp_initialized\",\"n\":0");
         self.main_loop(initialization_params)?;
+        #[cfg(datatrash_mos_verif)]
+        crate::verif_dbg::event(
+            "life",
+            &format!("\"what\":\"main_loop_left\",\"n\":{}", Arc::strong_count(&self.context)),
+        );
         Arc::try_unwrap(self.context)
             .ok()
             .unwrap()
             .into_inner()
             .unwrap()
             .join()?;
+        #[cfg(datatrash_mos_verif)]
+        crate::verif_dbg::event("life", "\"what\":\"io_joined\",\"n\":0");
 
         log::info!("Shutting down MOS language server");
         Ok(())
@@ -439,8 +448,12 @@ impl LspServer {
                 }
                 None => {
                     if req.method == "shutdown" {
+                        #[cfg(datatrash_mos_verif)]
+                        crate::verif_dbg::event("life", "\"what\":\"shutdown_request\",\"n\":0");
                         ctx.invoke_shutdown_handlers();
                         if ctx.connection().unwrap().handle_shutdown(&req)? {
+                            #[cfg(datatrash_mos_verif)]
+                            crate::verif_dbg::event("life", "\"what\":\"exit_notification\",\"n\":0");
                             return Ok(());
                         }
                     } else {
